@@ -36,6 +36,9 @@ type c27Op struct {
 	Topic  string `json:"topic,omitempty"`
 	QoS    uint8  `json:"qos,omitempty"`
 	Via    string `json:"via,omitempty"` // registered short predefined
+	// Refused (sub): the gateway refuses the subscription (SUBACK with this return code, 1-3): Subscribe
+	// must fail and the filter is not a current subscription
+	Refused byte `json:"refused,omitempty"`
 	// Between: Subscribe/Unsubscribe calls which complete between the QoS 2 PUBLISH (answered with
 	// PUBREC) and its PUBREL: the delivery happens at PUBREL, with the subscriptions current then.
 	Between []c27Op `json:"between,omitempty"`
@@ -86,6 +89,10 @@ func genC27(t *rapid.T) c27Case {
 			f := genFilter(t)
 			if rapid.IntRange(0, 4).Draw(t, "plainsub") == 0 {
 				f = genTopic(t) // a filter without wildcards
+			}
+			if rapid.IntRange(0, 4).Draw(t, "refused") == 0 {
+				c.Ops = append(c.Ops, c27Op{Op: "sub", Filter: f, QoS: uint8(rapid.IntRange(0, 2).Draw(t, "sqos")), Refused: byte(rapid.IntRange(1, 3).Draw(t, "refusal_rc"))})
+				continue
 			}
 			subs = append(subs, f)
 			c.Ops = append(c.Ops, c27Op{Op: "sub", Filter: f, QoS: uint8(rapid.IntRange(0, 2).Draw(t, "sqos"))})
@@ -154,6 +161,25 @@ func runC27(c c27Case) (r vf.Result) {
 	subUnsub := func(op c27Op) bool {
 		switch op.Op {
 		case "sub":
+			if op.Refused != 0 {
+				g.SubackRC = op.Refused
+				cs := s.Go(clsim.Call{API: "Subscribe", Topic: op.Filter, QoS: op.QoS})
+				ok := s.WaitCall(cs, time.Minute)
+				g.SubackRC = 0
+				if !ok {
+					r.Fail("harness-subscribe", "refused Subscribe(%q) did not return\n%s", op.Filter, s.Dump(20))
+					return false
+				}
+				if cs.Err == nil {
+					r.Fail("refused-subscribe-returns-nil", "Subscribe(%q) returned nil although the gateway refused it (return code %d)\n%s", op.Filter, op.Refused, s.Dump(20))
+					return false
+				}
+				r.Label("subscription-refused")
+				if !live[op.Filter] {
+					dead[op.Filter] = true // not a current subscription: its callback must never run
+				}
+				return true
+			}
 			cs := s.Go(clsim.Call{API: "Subscribe", Topic: op.Filter, QoS: op.QoS})
 			if !s.WaitCall(cs, time.Minute) || cs.Err != nil {
 				r.Fail("harness-subscribe", "Subscribe(%q) -> returned=%v err=%v\n%s", op.Filter, cs.Returned, cs.Err, s.Dump(20))
@@ -276,7 +302,7 @@ func gwID(g *clsim.Gateway, name string) uint16 {
 func TestC27(t *testing.T) {
 	vf.Check(t, vf.Prop[c27Case]{
 		ID: "C27", Name: "dispatch-matching", Bubble: true, MarkCurrent: true,
-		Rule: "real client against a cooperative scripted gateway; histories of 2-14 operations: Subscribe with filters of 0-3 levels over {a,b,empty,+} with optional trailing '#' (so '#', 'a/#', '+/+', '/', 'a//b', 'a/' occur) or plain names, each with its own recording callback; Unsubscribe; deliveries of topics of 1-4 levels over {a,b,empty} at QoS 0/1 (on receipt) and QoS 2 (PUBLISH, PUBREC, PUBREL; in half of them 1-2 Subscribe/Unsubscribe calls complete between PUBREC and PUBREL, and the subscriptions current at the PUBREL decide) via registered IDs, 2-octet short names and predefined IDs. Every (filter, topic) pair with at most 2 levels is additionally enumerated with a single subscription. Non-trivial = a delivery with >= 2 live subscriptions of which some match and some do not, or a topic with an empty level; distinct by case.",
+		Rule: "real client against a cooperative scripted gateway; histories of 2-14 operations: Subscribe with filters of 0-3 levels over {a,b,empty,+} with optional trailing '#' (so '#', 'a/#', '+/+', '/', 'a//b', 'a/' occur) or plain names, each with its own recording callback, a fifth of them refused by the gateway (return codes 1-3: the filter is not a subscription then); Unsubscribe; deliveries of topics of 1-4 levels over {a,b,empty} at QoS 0/1 (on receipt) and QoS 2 (PUBLISH, PUBREC, PUBREL; in half of them 1-2 Subscribe/Unsubscribe calls complete between PUBREC and PUBREL, and the subscriptions current at the PUBREL decide) via registered IDs, 2-octet short names and predefined IDs. Every (filter, topic) pair with at most 2 levels is additionally enumerated with a single subscription. Non-trivial = a delivery with >= 2 live subscriptions of which some match and some do not, or a topic with an empty level; distinct by case.",
 		Assumptions: []string{"'$'-topics and invalid filters are not generated; which of several matching callbacks runs is not constrained", "oracle: reference matcher written from MQTT 3.1.1 section 4.7"},
 		Exhaustive: func(tier string, yield func(c27Case)) {
 			lv := []string{"a", "b", "", "+"}
